@@ -1,6 +1,7 @@
 (** Entry.v — one entry point per model function for the correspondence check:
     the harness sends  ["op", arg]  as one line of ASCII JSON, the model answers one line. *)
 From InToto.Model Require Import Base Json Rule Glob Rules Utf8 Match DirDigest Canon EntryVerify.
+From InToto.Model Require Import EntryResolve.
 
 Definition s_ok : str := [111;107]%N.
 Definition jok (j : json) : json := JDict [(s_ok, j)].
@@ -115,6 +116,7 @@ Definition op_rules_trace : str := [114;117;108;101;115;95;116;114;97;99;101]%N.
 Definition op_fnmatch : str := [102;110;109;97;116;99;104]%N.
 
 Definition run_op (op : str) (arg : json) : json :=
+  match run_op_resolve op arg with Some j => j | None =>
   if eqs op op_verify then verify_op arg
   else if eqs op op_canon then canon_op arg
   else if eqs op op_match_products then match_products_op arg
@@ -129,7 +131,8 @@ Definition run_op (op : str) (arg : json) : json :=
   else if eqs op op_pack_unpacked then
     (* unpack, then pack the meaning: {"ok": [tokens]} / {"err": ..} ; error if unpack fails *)
     jres jstr_list (do m <- unpack_rule arg; pack_rule m)
-  else jerr EUnmodelled.
+  else jerr EUnmodelled
+  end.
 
 Definition bad_request : list N := [66;65;68;45;82;69;81;85;69;83;84]%N.
 
